@@ -35,7 +35,7 @@
 EXTENDS Topology, TLC
 
 UNTYPED == -1
-LevelTypes == {GROUP, PACKAGE, DIE, L3, L2, L1, CORE, NUMANODE}
+LevelTypes == {GROUP, PACKAGE, DIE, L3, L3I, L2, L2I, L1, L1I, CORE, NUMANODE}
 
 Max(S) == CHOOSE x \in S : \A y \in S : y <= x
 Min(S) == CHOOSE x \in S : \A y \in S : y >= x
@@ -54,6 +54,9 @@ Spellings(T) ==
     [] T = L1       -> {"l1", "L1Cache", "l1d"}
     [] T = L2       -> {"l2", "L2Cache", "l2u"}
     [] T = L3       -> {"l3", "L3Cache", "l3u"}
+    [] T = L1I      -> {"l1i", "L1iCache", "l1icache"}
+    [] T = L2I      -> {"l2i", "L2iCache", "l2icache"}
+    [] T = L3I      -> {"l3i", "L3iCache", "l3icache"}
     [] OTHER        -> {}
 
 Units == {"", "kB", "KiB", "MB", "MiB", "GB", "GiB", "TB", "TiB"}
@@ -107,7 +110,8 @@ AllAtt(d) == d.ratt \o FlatAtt(d.lv, 1)
 Untyped(d) == \A i \in 1..NL(d) : d.lv[i].T = UNTYPED
 HasNumaLevel(d) == \E i \in 1..NL(d) : d.lv[i].T = NUMANODE
 \* conventional order of the non-Group, non-NUMA types
-TypeRank(T) == CASE T = PACKAGE -> 1 [] T = DIE -> 2 [] T = L3 -> 3 [] T = L2 -> 4 [] T = L1 -> 5 [] T = CORE -> 6 [] T = PU -> 7 [] OTHER -> 0
+TypeRank(T) == CASE T = PACKAGE -> 1 [] T = DIE -> 2 [] T = L3 -> 3 [] T = L3I -> 4 [] T = L2 -> 5 [] T = L2I -> 6 [] T = L1 -> 7 [] T = L1I -> 8
+                 [] T = CORE -> 9 [] T = PU -> 10 [] OTHER -> 0
 DescOK(d) ==
   /\ NL(d) >= 1
   /\ SizeOK(d.rattr)
@@ -181,27 +185,80 @@ BlockOf(pu, w, j) == LET sz == Len(pu) \div w IN {pu[p] : p \in (j * sz + 1)..((
 DocDefault5 == <<PACKAGE, NUMANODE, L2, CORE, PU>>
 WithTypes(d, ty) == [d EXCEPT !.lv = [i \in 1..NL(d) |-> [d.lv[i] EXCEPT !.T = ty[i]]]]
 
+\* ---- type filters (hwloc.h, hwloc_topology_set_type_filter) ----
+\* The description is loaded into a topology whose type filters say which levels exist at all:
+\*  KEEP_ALL       "Keep all objects of this type.  Cannot be set for Group"
+\*  KEEP_NONE      "Ignore all objects of this type.  The bottom-level type PU, the NUMANODE type and the top-level
+\*                 type MACHINE may not be ignored"
+\*  KEEP_STRUCTURE "Only ignore objects if their entire level does not bring any structure ... An object brings
+\*                 structure when it has multiple children and it is not the only child of its parent"
+\*  KEEP_IMPORTANT "equivalent to KEEP_ALL for Normal, Memory and Misc types"
+\* defaults: everything is kept, except instruction caches, I/O, Misc and memory-side caches (KEEP_NONE) and
+\* Groups (KEEP_STRUCTURE).  A filter is a function from the type numbers to the kinds.
+KEEP_ALL == 0   KEEP_NONE == 1   KEEP_STRUCTURE == 2   KEEP_IMPORTANT == 3
+DefaultFlt == [T \in 0..(NTYPES - 1) |->
+                 IF T = GROUP THEN KEEP_STRUCTURE
+                 ELSE IF T \in ICacheTypes \cup IOTypes \cup {MISC, MEMCACHE} THEN KEEP_NONE ELSE KEEP_ALL]
+FilterCallOK(T, k) == /\ T \in 0..(NTYPES - 1) /\ k \in 0..3
+                      /\ T \in {PU, NUMANODE, MACHINE} => k = KEEP_ALL
+                      /\ T = GROUP => k \in {KEEP_NONE, KEEP_STRUCTURE}
+                      /\ T \in IOTypes \cup {MISC} => k # KEEP_STRUCTURE
+\* "0 on success, -1 on error": the documented impossible combinations are refused, the others accepted
+FilterCallRel(T, k, ret) == ret \in {0, -1} /\ (ret = 0 <=> FilterCallOK(T, k))
+ApplyFlt(F, T, k) == [F EXCEPT ![T] = IF k = KEEP_IMPORTANT /\ T \notin IOTypes THEN KEEP_ALL ELSE k]
+\* calls = sequence of <<type, kind>> (or <<type, kind, ret>>); the refused ones change nothing
+RECURSIVE FoldFlt(_, _)
+FoldFlt(F, calls) == IF calls = <<>> THEN F
+                     ELSE FoldFlt(IF FilterCallOK(Head(calls)[1], Head(calls)[2]) THEN ApplyFlt(F, Head(calls)[1], Head(calls)[2]) ELSE F, Tail(calls))
+FltOf(calls) == FoldFlt(DefaultFlt, calls)
+
 \* ---- expected normal levels ----
-\* X: the root and the described levels as [T, w, mem]; a NUMA level is a Group with memory
-DescLevels(d) ==
-  <<[T |-> MACHINE, w |-> 1, mem |-> d.ratt # <<>> \/ (AllAtt(d) = <<>> /\ ~HasNumaLevel(d))]>> \o
-  [i \in 1..NL(d) |-> [T |-> IF d.lv[i].T = NUMANODE THEN GROUP ELSE d.lv[i].T, w |-> WidthAt(d, i),
-                       mem |-> d.lv[i].att # <<>> \/ d.lv[i].T = NUMANODE]]
-\* Which levels of X survive: every non-Group level; a Group only when no other level has its width (one of several
-\* such Groups), or when only the PU level has it and memory hangs there (memory is never attached to a PU).
-\* dropDie: a Die level as wide as the Package level may be filtered out.
-KeepLevel(X, i, memExported, dropDie) ==
-  LET same == {k \in DOMAIN X : X[k].w = X[i].w}
-      nonG == {k \in same : X[k].T # GROUP}
-  IN IF X[i].T = GROUP
-     THEN /\ i = Min({k \in same : X[k].T = GROUP})
-          /\ \/ nonG = {}
-             \/ (\A k \in nonG : X[k].T = PU) /\ memExported /\ (\E k \in same : X[k].mem)
-     ELSE ~(dropDie /\ X[i].T = DIE /\ \E k \in same : X[k].T = PACKAGE)
-StructOf(X, memExported, dropDie) ==
-  LET kept == SelectSeq([i \in DOMAIN X |-> i], LAMBDA i : KeepLevel(X, i, memExported, dropDie))
-  IN [k \in DOMAIN kept |-> <<X[kept[k]].T, X[kept[k]].w>>]
-Structs(X, memExported) == {StructOf(X, memExported, FALSE), StructOf(X, memExported, TRUE)}
+\* X: the root and the described levels as [T, w, mem, k]; k is the filter kind of the type.  A NUMA level is a Group with
+\* memory ("NUMANode:3 actually means Group:3 where one NUMA node is attached below each group").  A level whose type is
+\* ignored is not built, but what is attached to it is: its NUMA nodes keep their cpuset, sizes and indexes (NumaRel does
+\* not look at the levels), and they are hosted like those of a NUMA level, by a Group when Groups are not ignored.
+\* Entries with k = KEEP_NONE stay in X only to say that memory hangs at that width.
+DescLevels(d, F) ==
+  <<[T |-> MACHINE, w |-> 1, mem |-> d.ratt # <<>> \/ (AllAtt(d) = <<>> /\ ~HasNumaLevel(d)), k |-> KEEP_ALL]>> \o
+  [i \in 1..NL(d) |-> LET m == d.lv[i].att # <<>> \/ d.lv[i].T = NUMANODE
+                          T1 == IF d.lv[i].T = NUMANODE THEN GROUP ELSE d.lv[i].T
+                          T2 == IF F[T1] = KEEP_NONE /\ m THEN GROUP ELSE T1
+                      IN [T |-> T2, w |-> WidthAt(d, i), mem |-> m, k |-> F[T2]]]
+\* Which levels of X survive, width by width (the levels of one width have the same cpusets, they are adjacent):
+\*  - the levels whose type is kept (KEEP_ALL) survive; a Die level as wide as a kept Package level may be merged into it;
+\*  - a KEEP_STRUCTURE level (Groups by default) as wide as a surviving kept level brings no structure: it is removed;
+\*    but memory is never attached to a PU: when only the PU level has that width and memory hangs there, one
+\*    KEEP_STRUCTURE level stays to host it;
+\*  - among several KEEP_STRUCTURE levels of a width that no kept level has, one survives (which one is not documented);
+\*  - KEEP_NONE levels never appear.
+Widths(X) == {X[i].w : i \in DOMAIN X}
+ClassKeeps(X, w, memExported) ==
+  LET C == {i \in DOMAIN X : X[i].w = w}
+      hard == {i \in C : X[i].k = KEEP_ALL}
+      soft == {i \in C : X[i].k = KEEP_STRUCTURE}
+      mem == memExported /\ \E i \in C : X[i].mem
+      dies == {i \in hard : X[i].T = DIE /\ \E j \in hard : X[j].T = PACKAGE}
+      hards == {hard, hard \ dies}
+  IN IF soft = {} \/ (hard # {} /\ ~((\A i \in hard : X[i].T = PU) /\ mem)) THEN hards
+     ELSE {h \cup {j} : h \in hards, j \in soft}
+RECURSIVE KeepSets(_, _, _)
+KeepSets(X, W, memExported) ==
+  IF W = {} THEN {{}}
+  ELSE LET w == CHOOSE x \in W : TRUE IN {a \cup b : a \in ClassKeeps(X, w, memExported), b \in KeepSets(X, W \ {w}, memExported)}
+StructOfSet(X, S) == LET kept == SelectSeq([i \in DOMAIN X |-> i], LAMBDA i : i \in S)
+                     IN [k \in DOMAIN kept |-> <<X[kept[k]].T, X[kept[k]].w>>]
+Structs(X, memExported) == {StructOfSet(X, S) : S \in KeepSets(X, Widths(X), memExported)}
+\* one of them, the way hwloc chooses (steers the model only): the Die is merged, the KEEP_STRUCTURE level of the highest
+\* merge priority stays (Core, Package, Die, caches, instruction caches, Group)
+MergePrio(T) == CASE T = CORE -> 60 [] T = PACKAGE -> 40 [] T = DIE -> 30 [] T \in DCacheTypes -> 20 [] T \in ICacheTypes -> 19 [] OTHER -> 0
+ClassPick(X, w) ==
+  LET C == {i \in DOMAIN X : X[i].w = w}
+      hard == {i \in C : X[i].k = KEEP_ALL}
+      soft == {i \in C : X[i].k = KEEP_STRUCTURE}
+      h == hard \ {i \in hard : X[i].T = DIE /\ \E j \in hard : X[j].T = PACKAGE}
+      best == CHOOSE j \in soft : \A x \in soft : MergePrio(X[j].T) > MergePrio(X[x].T) \/ (MergePrio(X[j].T) = MergePrio(X[x].T) /\ j <= x)
+  IN IF soft = {} \/ (hard # {} /\ ~((\A i \in hard : X[i].T = PU) /\ \E i \in C : X[i].mem)) THEN h ELSE h \cup {best}
+StructOf(X) == StructOfSet(X, UNION {ClassPick(X, w) : w \in Widths(X)})
 
 SStruct(s) == [k \in DOMAIN s.lv |-> <<s.lv[k].type, s.lv[k].nb>>]
 PUos(s) == s.lv[Len(s.lv)].os
@@ -260,10 +317,10 @@ CacheSizes(d, s) ==
      /\ (d.lv[i].size = <<>> /\ s.lv[k].type = L2) => \A r \in DOMAIN s.lv[k].size : s.lv[k].size[r] = MiB4
      /\ \A r \in DOMAIN s.lv[k].size : s.lv[k].size[r] = s.lv[k].size[1]
 
-BuildRelTyped(d, s) ==
+BuildRelTyped(d, F, s) ==
   LET pu == PUIdx(d) IN
   /\ s.depth = Len(s.lv) /\ s.depth >= 2
-  /\ SStruct(s) \in Structs(DescLevels(d), TRUE)
+  /\ SStruct(s) \in Structs(DescLevels(d, F), TRUE)
   /\ s.rsym = 1
   /\ UniformArities(s)
   /\ LevelSets(pu, s)
@@ -291,10 +348,11 @@ BuildRelUntypedDeep(d, s) ==
   /\ \A k \in DOMAIN s.lv : \E i \in 0..NL(d) : s.lv[k].nb = WidthAt(d, i)
   /\ UniformArities(s) /\ LevelSets(pu, s) /\ PUSets(s)
   /\ Len(s.numa) >= 1
-BuildRel(d, s) ==
-  IF ~Untyped(d) THEN BuildRelTyped(d, s)
-  ELSE IF NL(d) = 5 /\ AllAtt(d) = <<>> THEN BuildRelTyped(WithTypes(d, DocDefault5), s)
-  ELSE IF NL(d) <= 5 THEN \E ty \in Assignments(d, s) : BuildRelTyped(WithTypes(d, ty), s)
+\* F: the type filters of the topology the description is loaded into
+BuildRel(d, F, s) ==
+  IF ~Untyped(d) THEN BuildRelTyped(d, F, s)
+  ELSE IF NL(d) = 5 /\ AllAtt(d) = <<>> THEN BuildRelTyped(WithTypes(d, DocDefault5), F, s)
+  ELSE IF NL(d) <= 5 THEN \E ty \in Assignments(d, s) : BuildRelTyped(WithTypes(d, ty), F, s)
   ELSE BuildRelUntypedDeep(d, s)
 
 \* hwloc.h: "If description was properly parsed and describes a valid topology configuration, this function
@@ -371,8 +429,9 @@ PosSet(s, cs) == {r \in DOMAIN PUos(s) : PUos(s)[r] \in RSet(cs)}
 AttachSeq(s) == [k \in DOMAIN s.numa |-> PosSet(s, s.numa[k].cs)]
 \* types that the flags degrade: "Export extended types ... as basic types" / "as expected in hwloc 1.x"
 MapType(T, f) == IF T = DIE /\ (Has(f, F_NOEXT) \/ Has(f, F_V1)) THEN GROUP ELSE T
-LevelsOfSummary(s, f) ==
-  [k \in DOMAIN s.lv |-> [T |-> MapType(s.lv[k].type, f), w |-> s.lv[k].nb, mem |-> \E r \in DOMAIN s.lv[k].mar : s.lv[k].mar[r] > 0]]
+LevelsOfSummary(s, f, F) ==
+  [k \in DOMAIN s.lv |-> [T |-> MapType(s.lv[k].type, f), w |-> s.lv[k].nb, mem |-> \E r \in DOMAIN s.lv[k].mar : s.lv[k].mar[r] > 0,
+                          k |-> F[MapType(s.lv[k].type, f)]]]
 CacheSizesKept(s1, s2) ==
   \A k2 \in DOMAIN s2.lv : s2.lv[k2].type \in CacheTypes =>
      \E k1 \in DOMAIN s1.lv : s1.lv[k1].type = s2.lv[k2].type /\ s1.lv[k1].nb = s2.lv[k2].nb /\ s1.lv[k1].size = s2.lv[k2].size
@@ -386,12 +445,12 @@ MemSlots(s, pd, pl) == LET idx == SelectSeq([k \in DOMAIN s.numa |-> k], LAMBDA 
                        IN [x \in DOMAIN idx |-> s.numa[idx[x]].mem]
 SlotUniform(s) == \A a, b \in DOMAIN s.numa : s.numa[a].pd = s.numa[b].pd => MemSlots(s, s.numa[a].pd, s.numa[a].pl) = MemSlots(s, s.numa[b].pd, s.numa[b].pl)
 
-\* rl = the reload event: [text, set, load, sum, re]
-RoundTripRel(s1, f, rl) ==
+\* rl = the reload event: [text, set, load, sum, re]; F = the type filters of both topologies
+RoundTripRel(s1, F, f, rl) ==
   /\ rl.set = 0 /\ rl.load = 0
   /\ LET s2 == rl.sum IN
      /\ s2.depth = Len(s2.lv)
-     /\ SStruct(s2) \in Structs(LevelsOfSummary(s1, f), ~Has(f, F_IGNMEM))
+     /\ SStruct(s2) \in Structs(LevelsOfSummary(s1, f, F), ~Has(f, F_IGNMEM))
      /\ UniformArities(s2)
      /\ s2.rsym = 1
      /\ IF Has(f, F_NOATTRS) THEN PUos(s2) = Ident(Len(PUos(s2)))
@@ -450,11 +509,11 @@ PostAtt(d, i, j) ==
       below(c) == IF c >= a THEN <<>> ELSE PostAtt(d, i + 1, j * a + c) \o below(c + 1)
   IN IF i >= NL(d) THEN <<>> ELSE below(0) \o own
 
-BuildDo(d0) ==
+BuildDo(d0, F) ==
   LET d == Resolved(d0)
       pu == PUIdx(d)
-      X == DescLevels(d)
-      st == StructOf(X, TRUE, TRUE)
+      X == DescLevels(d, F)
+      st == StructOf(X)
       ws == [k \in DOMAIN st |-> st[k][2]]
       ord == [k \in DOMAIN st |-> OrderAt(pu, ws, k)]
       \* all NUMA nodes as [os, mem, blk = <<w, j>>]
@@ -466,9 +525,11 @@ BuildDo(d0) ==
                ELSE IF AllAtt(d) = <<>> THEN <<[os |-> 0, mem |-> GiB1, w |-> 1, j |-> 0]>>
                ELSE [p \in DOMAIN post |-> [os |-> A[p], mem |-> MemOf(AttAt(d, post[p][1])[post[p][3]].size),
                                             w |-> WidthAt(d, post[p][1]), j |-> post[p][2]]]
-      \* the level hosting the memory of width w: the first kept level of that width that is not the PU level
-      host(w) == Min({k \in DOMAIN st : st[k][2] = w})
-      nodesAt(k, j) == {p \in DOMAIN nodes : host(nodes[p].w) = k /\ nodes[p].j = j}
+      \* the level hosting the memory of width w: the first kept level of that width that is not the PU level; when
+      \* there is none (the level is ignored and so are Groups) the nearest wider object above
+      hostw(w) == Max({st[k][2] : k \in {x \in DOMAIN st : st[x][2] <= w /\ st[x][1] # PU}})
+      host(w) == Min({k \in DOMAIN st : st[k][2] = hostw(w) /\ st[k][1] # PU})
+      nodesAt(k, j) == {p \in DOMAIN nodes : host(nodes[p].w) = k /\ nodes[p].j \div (nodes[p].w \div ws[k]) = j}
       lvrec(k) == LET w == ws[k] IN
          [type |-> st[k][1], nb |-> w,
           os  |-> [r \in 1..w |-> IF st[k][1] = PU THEN Min(BlockOf(pu, w, ord[k][r])) ELSE IF st[k][1] \in CacheTypes \cup {GROUP} THEN -1 ELSE ord[k][r]],
